@@ -74,6 +74,24 @@ MUTATIONS = {
         ("programs/store/src/states/oracle/mod.rs", "        None => unit_prices.checked_mid()?,", "        None => unit_prices.min,", "mid reference replaced by the min price"),
         ("programs/store/src/states/oracle/mod.rs", "    let max_deviation = apply_factor::<_, { constants::MARKET_DECIMALS }>(&ref_price, factor)?;", "    let max_deviation = apply_factor::<_, { constants::MARKET_DECIMALS }>(&unit_prices.max, factor)?;", "deviation taken of the max price instead of the reference"),
     ],
+    "C30": [
+        ("programs/store/src/states/gt.rs", "        let minted_value = size_in_value - remainder;", "        let minted_value = size_in_value;", "get_mint_amount: remainder not subtracted"),
+        ("programs/store/src/states/gt.rs", "                    &minting_cost,\n                    &self.minting_cost_grow_factor,", "                    &self.minting_cost,\n                    &self.minting_cost_grow_factor,", "next_minting_cost: growth not compounded"),
+        ("programs/store/src/states/gt.rs", "        let new_steps = next_minted / self.grow_step_amount;", "        let new_steps = next_minted.div_ceil(self.grow_step_amount);", "next_minting_cost: steps rounded up"),
+        ("programs/store/src/states/gt.rs", "            Ok(rank) => rank + 1,", "            Ok(rank) => rank,", "update_rank: exact threshold hit not counted"),
+        ("programs/store/src/states/gt.rs", "        &self.ranks[0..(self.max_rank as usize)]", "        &self.ranks[0..(self.max_rank as usize) / 2]", "ranks(): half of the table"),
+    ],
+    "C37": [
+        ("programs/treasury/src/states/gt_bank.rs", "        require_gte!(denominator, numerator, CoreError::InvalidArgument);", "        require_gte!(numerator, denominator, CoreError::InvalidArgument);", "reserve_balances: proportion check inverted"),
+        ("programs/treasury/src/states/gt_bank.rs", "                .checked_mul_div(numerator, denominator)", "                .checked_mul_div_ceil(numerator, denominator)", "reserve_balances: rounded up"),
+        ("programs/treasury/src/states/gt_bank.rs", "            balance.amount = reserve_balance;", "            balance.amount -= reserve_balance;", "reserve_balances: complement kept"),
+    ],
+    "C45": [
+        ("programs/store/src/states/glv.rs", "        if self.max_amount == 0 && self.max_value == 0 {", "        if self.max_amount == 0 || self.max_value == 0 {", "validate_balance: && -> || (one cap unset disables both)"),
+        ("programs/store/src/states/glv.rs", "                &(new_balance as u128),\n                &market_pool_value.unsigned_abs(),\n                market_token_supply,", "                &(new_balance as u128),\n                market_token_supply,\n                &market_pool_value.unsigned_abs(),", "validate_balance: pool value and supply swapped"),
+        ("programs/store/src/states/glv.rs", "                self.max_amount,\n                new_balance,\n                CoreError::ExceedMaxGlvMarketTokenBalanceAmount", "                self.max_amount + 1,\n                new_balance,\n                CoreError::ExceedMaxGlvMarketTokenBalanceAmount", "validate_balance: amount cap off by one"),
+        ("programs/store/src/states/glv.rs", "            if market_pool_value.is_negative() {\n                return err!(CoreError::GlvNegativeMarketPoolValue);\n            }", "            if market_pool_value.is_negative() {\n                return Ok(());\n            }", "validate_balance: negative pool value accepted"),
+    ],
     "C31": [
         ("programs/store/src/states/store.rs", "            .and_then(|factor| discount_factor_for_referred.checked_add(factor))", "            .and_then(|factor| discount_factor_for_referred.checked_sub(factor))", "referral discount combined with - instead of +"),
         ("programs/store/src/states/store.rs", "                .checked_sub(*discount_factor_for_referred)\n", "                .checked_sub(discount_factor_for_rank)\n", "complement taken of the rank discount"),
